@@ -16,6 +16,7 @@ def rf_incrFresh (E : Externals) (dbk : SqlVal) (raw : Bool) (now : Int) (delta 
     match s.store E (.int value) false with
     | .error _ => { s := s, out := .exc "UnicodeEncodeError", ok := false }
     | .ok (s, c) =>
+      let s := s.regCreated c.file
       match upd with
       | none =>
         let s := s.insRow dbk raw now c
@@ -63,12 +64,20 @@ theorem rf_incrFresh_store_gen {E : Externals} {dbk : SqlVal} {raw : Bool} {now 
   cases upd with
   | none =>
     simp only
-    obtain ⟨h1, h3, -⟩ := rf_cull_tail_gen (t1.insRow dbk raw now c) now (insRow_inv dbk raw now c hi hupd hnn)
-    exact ⟨trivial, trivial, h1, h3⟩
+    rcases regCreated_cases t1 c.file with e | ⟨g, -, -, e⟩ <;> rw [e]
+    · obtain ⟨h1, h3, -⟩ := rf_cull_tail_gen (t1.insRow dbk raw now c) now (insRow_inv dbk raw now c hi hupd hnn)
+      exact ⟨trivial, trivial, h1, h3⟩
+    · obtain ⟨h1, h3, -⟩ := rf_cull_tail_gen (({ t1 with created := t1.created ++ [g] } : Cache).insRow dbk raw now c) now
+        (insRow_inv dbk raw now c (hi.same rfl rfl rfl rfl) hupd hnn)
+      exact ⟨trivial, trivial, h1, h3⟩
   | some r0 =>
     simp only
-    obtain ⟨h1, h3, -⟩ := rf_cull_tail_gen (t1.updRow r0.rowid now c) now (updRow_inv r0.rowid now c hi)
-    exact ⟨trivial, trivial, h1, h3⟩
+    rcases regCreated_cases t1 c.file with e | ⟨g, -, -, e⟩ <;> rw [e]
+    · obtain ⟨h1, h3, -⟩ := rf_cull_tail_gen (t1.updRow r0.rowid now c) now (updRow_inv r0.rowid now c hi)
+      exact ⟨trivial, trivial, h1, h3⟩
+    · obtain ⟨h1, h3, -⟩ := rf_cull_tail_gen (({ t1 with created := t1.created ++ [g] } : Cache).updRow r0.rowid now c) now
+        (updRow_inv r0.rowid now c (hi.same rfl rfl rfl rfl))
+      exact ⟨trivial, trivial, h1, h3⟩
 
 /-- what the (re)creation branch of `incr` does to the view -/
 def rf_IncrFresh (s c' : Cache) (o : Out) (E : Externals) (K : Key) (now delta : Int)
